@@ -363,3 +363,73 @@ def close(a, b, rtol=1e-9, atol=0.0):
     b = np.asarray(b, dtype=float)
     with np.errstate(all="ignore"):
         return bool(np.all(np.abs(a - b) <= atol + rtol * np.maximum(np.abs(a), np.abs(b))))
+
+
+# ---------------------------------------------------------------- star inputs (C20)
+def star_ts2(rng):
+    """star-like tree sequence: every edge joins a non-sample parent to a sample at time 0.
+    1-4 trees; a parent may span several trees (un-squashed adjacent edges) or be new in each;
+    each tree holds a subset (>= 2) of the samples; skewed mutation counts per sample"""
+    import tskit
+    n = rng.randint(2, 8)
+    L = rng.choice([10, 100, 1000])
+    T = min(rng.choice([1, 1, 2, 3, 4]), L)
+    brk = sorted(set([0, L] + [rng.randint(1, L - 1) for _ in range(T - 1)]))
+    tables = tskit.TableCollection(L)
+    for _ in range(n):
+        tables.nodes.add_row(flags=tskit.NODE_IS_SAMPLE, time=0)
+    parents = []
+    present = []
+    seen = set()
+    for k in range(len(brk) - 1):
+        if parents and rng.random() < 0.4:
+            p = rng.choice(parents)
+        else:
+            p = tables.nodes.add_row(flags=0, time=1.0 + len(parents))
+        parents.append(p)
+        kids = [c for c in range(n) if rng.random() < 0.8]
+        while len(kids) < 2:
+            c = rng.randrange(n)
+            if c not in kids:
+                kids.append(c)
+        if k == len(brk) - 2:
+            kids = sorted(set(kids) | (set(range(n)) - seen))
+        seen |= set(kids)
+        present.append(sorted(kids))
+        for c in sorted(kids):
+            tables.edges.add_row(brk[k], brk[k + 1], p, c)
+    weight = [rng.choice([0.0, 0.2, 1.0, 1.0, 5.0]) for _ in range(n)]
+    dens = rng.choice([0.0, 0.05, 0.3, 0.9])
+    for x in range(L):
+        if rng.random() < dens:
+            k = max(j for j in range(len(brk) - 1) if brk[j] <= x)
+            w = [weight[c] for c in present[k]]
+            if sum(w) <= 0:
+                continue
+            c = rng.choices(present[k], weights=w)[0]
+            s = tables.sites.add_row(x, "0")
+            tables.mutations.add_row(site=s, node=c, derived_state="1")
+    tables.sort()
+    tables.build_index()
+    tables.compute_mutation_parents()
+    return tables.tree_sequence()
+
+
+def star_closed_form(ts, mutation_rate):
+    """exact (sum of mutation counts, mutation_rate * sum of spans) per parent, as Fractions,
+    computed from the tables alone"""
+    from fractions import Fraction
+    y = {}
+    mu = {}
+    rate = Fraction(mutation_rate)
+    for e in ts.edges():
+        mu[e.parent] = mu.get(e.parent, Fraction(0)) + rate * (Fraction(e.right) - Fraction(e.left))
+        y.setdefault(e.parent, Fraction(0))
+    pos = ts.sites_position
+    for m in ts.mutations():
+        x = pos[m.site]
+        for e in ts.edges():
+            if e.child == m.node and e.left <= x < e.right:
+                y[e.parent] += 1
+                break
+    return y, mu
